@@ -606,8 +606,9 @@ class MagicRobot(wpilib.RobotBase):
             if m.startswith("_"):
                 continue
 
-            # If the variable has been set, skip it
-            if hasattr(self, m):
+            # If the variable has been set, skip it (a tunable is set, but
+            # cannot be read through the instance until it has been bound)
+            if hasattr(self, m) or isinstance(getattr(cls, m, None), tunable):
                 continue
 
             # If the type is not actually a type, give a meaningful error
